@@ -21,6 +21,10 @@ fn main() {
         std::process::exit(2);
     }
     let id = args[1].clone();
+    if id == "__c19-child" {
+        std::panic::set_hook(Box::new(|_| {}));
+        std::process::exit(checks::c19::child_main());
+    }
     if id == "__c18-child" {
         std::panic::set_hook(Box::new(|_| {}));
         std::process::exit(checks::c18::child_main());
